@@ -259,7 +259,7 @@ class C04(FrpProp):
 class C05(FrpProp):
     pid = "C05"
     extra_props = ["Refine", "K1"]
-    level_text = "Theorems over the specification: switch_s follows the stream the outer cell held at the START of the transaction (effective next transaction, back and forth, same stream); switch_c's update in a switching transaction is the new inner's update or current value, otherwise the current inner's update; invariant: the switch_c cell always equals the cell currently held by the outer cell, preserved by every close over any history. Refine_*: switch_s is inside the proved engine fragment (its dependency is the stream held at the start of the transaction, re-wired at commit) under the hypothesis that the graph stays acyclic; K1_engine_differs_from_spec proves that for the cyclic-outer-cell class engine and specification disagree. switch_c's dynamic dependency acquisition is outside the engine fragment: correspondence only. Known finding K1 (cyclic outer cell) is reported, not suppressed for other shapes."
+    level_text = "Theorems over the specification: switch_s follows the stream the outer cell held at the START of the transaction (effective next transaction, back and forth, same stream); switch_c's update in a switching transaction is the new inner's update or current value, otherwise the current inner's update; invariant: the switch_c cell always equals the cell currently held by the outer cell, preserved by every close over any history. Refine_*: switch_s is inside the proved engine fragment (its dependency is the stream held at the start of the transaction, re-wired at commit) under the hypothesis that the graph stays acyclic; K1_engine_differs_from_spec proves that for the cyclic-outer-cell class engine and specification disagree. switch_c is inside the fragment too: the engine model has dynamic demands (a node may, from inside its update, bring another node up to date as a dependency - what switch_c's nested update_node2 does), tied exactly to the real engine at the raw level (C03 scripts with demanding nodes). Known finding K1 (cyclic outer cell) is reported, not suppressed for other shapes."
     tag = "c05"
     profile = Profile(w=W(switch_s=10, switch_c=10, hold=8, map_c=6, defer=3, split=2, sloop=1, cloop=1), n_defs=(5, 14),
                       n_txn=(5, 16), p_block=0.7, p_sample=0.5, p_post=0.1, p_def_in_txn=0.1)
@@ -372,8 +372,8 @@ class C15(FrpProp):
     pid = "C15"
     level_text = "Theorems: a sink's occurrence is the coalescing of exactly the values sent to it in the transaction, in send order across nested brackets; coalesce with a combining function is the left fold in send order (for every, also non-commutative, function), without it the last value; the transliteration of Stream::_send applied send by send computes the same; a cell sink is a hold over a sink (initial value until the first send, then the last value sent). Tie: correspondence with multiple sends spread over nested brackets."
     tag = "c15"
-    profile = Profile(w=W(sink_co=8, csink=6, sink=6), max_sinks=5, p_block=0.9, p_nested=0.5, p_scoped=0.2,
-                      n_txn=(4, 12), p_sample=0.5)
+    profile = Profile(w=W(sink_co=8, csink=6, sink=6, defer=4, split=2), max_sinks=5, p_block=0.9, p_nested=0.5, p_scoped=0.2,
+                      n_txn=(4, 12), p_sample=0.5, p_post=0.2)
 
 
 class C17(FrpProp):
